@@ -1,14 +1,188 @@
-// Package c01 is the correspondence area of property C01 (stub: the slice is not built yet).
+// Package c01 is the correspondence area of property C01: trace validation of the real
+// ProxyForwarder.Forward against the Lean LTS (L1, `fwd` lines) and an end-to-end layer over real gRPC
+// on bufconn (L2, `e2e` lines). The simulator is shared with C02 (harness/c02).
 package c01
 
 import (
+	"fmt"
 	"math/rand"
+	"strings"
+
+	"verif/harness/common"
 )
 
 type Area struct{}
 
 func (Area) Name() string { return "c01" }
 
-func (Area) Exec(input string) string { return "UNIMPLEMENTED" }
+// Exec runs one case on the real code.
+func Exec(input string) string {
+	switch {
+	case strings.HasPrefix(input, "fwd "):
+		return RunL1(input)
+	case strings.HasPrefix(input, "e2e "):
+		return RunE2E(input)
+	}
+	return "BADOP"
+}
 
-func (Area) Gen(r *rand.Rand, tier string, emit func(string)) {}
+func (Area) Exec(input string) string { return Exec(input) }
+
+var payloadAlphabet = []byte{0x00, 0x01, 0x0a, 0x7f, 0xff}
+
+func randPayload(r *rand.Rand) string {
+	n := r.Intn(4)
+	if r.Intn(12) == 0 {
+		n = 4 + r.Intn(40)
+	}
+	return common.Hex(common.RandBytes(r, n, payloadAlphabet))
+}
+
+// GenOpts steer the scenario generator.
+type GenOpts struct {
+	Faults  bool // inject errors / blocks / cancellations (C02) — otherwise mostly fault-free (C01)
+	Unaware bool // let one side ignore the context
+}
+
+func b2s(b bool) string {
+	if b {
+		return "1"
+	}
+	return "0"
+}
+
+// Line renders a scenario line.
+func Line(cs, ss, ia, oa, lz bool, mt string, ir, is, st, ow, or []string, cx string, sd int64) string {
+	j := func(x []string) string {
+		if len(x) == 0 {
+			return "-"
+		}
+		return strings.Join(x, ",")
+	}
+	return fmt.Sprintf("fwd cs=%s ss=%s ia=%s oa=%s lz=%s mt=%s ir=%s is=%s st=%s ow=%s or=%s cx=%s sd=%d",
+		b2s(cs), b2s(ss), b2s(ia), b2s(oa), b2s(lz), mt, j(ir), j(is), j(st), j(ow), j(or), cx, sd)
+}
+
+// RandomScenario draws one scenario.
+func RandomScenario(r *rand.Rand, o GenOpts) string {
+	cs, ss := r.Intn(2) == 0, r.Intn(2) == 0
+	nreq, nresp := 1, 1
+	if cs {
+		nreq = r.Intn(7)
+	} else if r.Intn(10) == 0 {
+		nreq = 0
+	}
+	if ss {
+		nresp = r.Intn(7)
+	} else if r.Intn(8) == 0 {
+		nresp = r.Intn(3) // 0 or 2: misbehaving target on a unary-response method
+	}
+	var ir, is, ow, or []string
+	for i := 0; i < nreq; i++ {
+		ir = append(ir, "m:"+randPayload(r))
+		ow = append(ow, "k")
+	}
+	switch x := r.Intn(10); {
+	case x < 7:
+		ir = append(ir, "E") // half-close
+	case x < 9:
+		ir = append(ir, "B") // silent client
+	default:
+		ir = append(ir, fmt.Sprintf("e%d", 1+r.Intn(40)))
+	}
+	if len(ow) > 0 && r.Intn(6) == 0 { // target stops reading early
+		ow[r.Intn(len(ow))] = "E"
+	}
+	for i := 0; i < nresp; i++ {
+		or = append(or, "m:"+randPayload(r))
+		is = append(is, "k")
+	}
+	switch x := r.Intn(10); {
+	case x < 5:
+		or = append(or, "E")
+	case x < 9:
+		or = append(or, fmt.Sprintf("e%d", 1+r.Intn(40))) // final status
+	default:
+		or = append(or, "B")
+	}
+	st := []string{"k"}
+	cx := "-"
+	if o.Faults {
+		// one or two injected faults
+		for n := 1 + r.Intn(2); n > 0; n-- {
+			switch r.Intn(6) {
+			case 0:
+				if len(ir) > 0 {
+					ir[r.Intn(len(ir))] = common.Pick(r, []string{fmt.Sprintf("e%d", 50+r.Intn(20)), "B", "E"})
+				}
+			case 1:
+				if len(ow) > 0 {
+					ow[r.Intn(len(ow))] = common.Pick(r, []string{fmt.Sprintf("e%d", 70+r.Intn(20)), "B", "E"})
+				}
+			case 2:
+				if len(or) > 0 {
+					or[r.Intn(len(or))] = common.Pick(r, []string{fmt.Sprintf("e%d", 90+r.Intn(20)), "B", "E"})
+				}
+			case 3:
+				if len(is) > 0 {
+					is[r.Intn(len(is))] = common.Pick(r, []string{fmt.Sprintf("e%d", 110+r.Intn(20)), "B"})
+				}
+			case 4:
+				st[0] = common.Pick(r, []string{fmt.Sprintf("e%d", 130+r.Intn(20)), "B", "k"})
+			default:
+				cx = fmt.Sprintf("%s@%d", common.Pick(r, []string{"c", "d"}), r.Intn(40))
+			}
+		}
+	} else if r.Intn(12) == 0 {
+		cx = fmt.Sprintf("%s@%d", common.Pick(r, []string{"c", "d"}), r.Intn(40))
+	}
+	ia, oa := true, true
+	if o.Unaware {
+		if r.Intn(3) != 0 {
+			ia = false
+		} else {
+			oa = false
+		}
+	}
+	mt := common.Pick(r, []string{"b", "b", "e"})
+	return Line(cs, ss, ia, oa, r.Intn(3) == 0, mt, ir, is, st, ow, or, cx, r.Int63n(1<<31))
+}
+
+func (Area) Gen(r *rand.Rand, tier string, emit func(string)) {
+	n, ne := 450, 60
+	if tier == "thorough" {
+		n, ne = 12000, 1500
+	}
+	// all four RPC kinds, fault-free, 0..3 requests x 0..3 responses, both final outcomes, a few orders each
+	for _, cs := range []bool{false, true} {
+		for _, ss := range []bool{false, true} {
+			for nq := 0; nq <= 3; nq++ {
+				for np := 0; np <= 3; np++ {
+					if (!cs && nq != 1) || (!ss && np != 1) {
+						continue
+					}
+					for _, fin := range []string{"E", "e7"} {
+						var ir, is, ow, or []string
+						for i := 0; i < nq; i++ {
+							ir = append(ir, fmt.Sprintf("m:x%02x", 0x10+i))
+							ow = append(ow, "k")
+						}
+						ir = append(ir, "E")
+						for i := 0; i < np; i++ {
+							or = append(or, fmt.Sprintf("m:x%02x", 0xa0+i))
+							is = append(is, "k")
+						}
+						or = append(or, fin)
+						for k := 0; k < 2; k++ {
+							emit(Line(cs, ss, true, true, false, "b", ir, is, []string{"k"}, ow, or, "-", r.Int63n(1<<31)))
+						}
+					}
+				}
+			}
+		}
+	}
+	for i := 0; i < n; i++ {
+		emit(RandomScenario(r, GenOpts{Faults: i%5 == 4}))
+	}
+	GenE2E(r, ne, false, emit)
+}
